@@ -34,13 +34,6 @@ Theorem C24_group_concat_order_refuted :
 Proof. vm_compute. discriminate. Qed.
 Print Assumptions C24_group_concat_order_refuted.
 
-(* count-tuple-query-counts-distinct-first-column: three distinct pairs, count() says 2 *)
-Definition q_pairs := zzquery [(1, 1); (1, 2); (2, 1)] (fun _ => true) false true None no_window.
-Theorem C24_count_pair_refuted :
-  q_count_pair None q_pairs <> Ok (zlen (q_list zz_eqb q_pairs)).
-Proof. vm_compute. discriminate. Qed.
-Print Assumptions C24_count_pair_refuted.
-
 (* limited-subquery-*: q2 = select(x for x in q.limit(2)) over rows 1 2 3 is [1; 2] *)
 Definition q_rows3 := zquery [1; 2; 3] all false false None no_window.
 Definition q_lim := nest q_rows3 (Some 2, None).
@@ -80,12 +73,6 @@ Print Assumptions C24_distinct_before_limit_refuted.
 Theorem C24_aggregate_limited_refuted : forall f arg, q_aggregate f arg q_lim = Err 2%nat.
 Proof. intros f arg. reflexivity. Qed.
 Print Assumptions C24_aggregate_limited_refuted.
-
-(* ...bulk-delete-ignores-limit: q2 selects [1; 2]; delete(bulk=True) removes 1 2 3 *)
-Theorem C24_bulk_delete_limited_refuted :
-  bulk_deleted q_lim = [1; 2; 3] /\ q_list Z.eqb q_lim = [1; 2].
-Proof. split; vm_compute; reflexivity. Qed.
-Print Assumptions C24_bulk_delete_limited_refuted.
 
 (* ...drops-explicit-distinct-flag: q = select(p.a ...).without_distinct() over rows 1 1 2 is [1; 1; 2]; iterating over
    q.limit(2) gives [1; 2], not [1; 1] *)
